@@ -41,7 +41,7 @@ import (
 )
 
 func init() {
-	register("lock order (every package: Lock/RLock regions, calls made inside them)", func(repo string, w *bytes.Buffer) error {
+	register("Locks", "lock order (every package: Lock/RLock regions, calls made inside them)", func(repo string, w *bytes.Buffer) error {
 		src, err := extractLocks(repo)
 		if err != nil {
 			return err
